@@ -122,9 +122,10 @@ class InitMethod(MethodDescriptor):
                 overflow_spec = instance_metadata.attrs[
                     instance_metadata.init_overflow_attr
                 ]
-                getattr(
-                    self, f"with_{instance_metadata.init_overflow_attr}"
-                )(  # TODO: avoid this
+                # (Stored like every other constructor argument: nothing set
+                # during construction is to be invalidated by it.)
+                self.__setattr__(
+                    instance_metadata.init_overflow_attr,
                     {
                         # (Copied like every other constructor argument.)
                         key: value if overflow_spec.do_not_copy else protect_via_deepcopy(value)
@@ -133,7 +134,8 @@ class InitMethod(MethodDescriptor):
                         or not instance_metadata.attrs[key].init
                         or key == instance_metadata.init_overflow_attr
                     },
-                    _inplace=True,
+                    force=True,
+                    skip_invalidation=True,
                 )
 
             # (Looked up on the instance's class so that overrides in
